@@ -20,6 +20,9 @@ def check(ctx):
     P = ctx.program
     prologue(ctx, P)
     epilogue(ctx, P)
+    # the clock is only ever set to the date of the event about to run (shared instance): a clamped or otherwise derived clock makes the resumed run differ
+    from . import c02
+    c02.clock(ctx, P, (0, 1))
     ctx.assume("no two events coincide (the property's tie-free proviso): the tie-break random_choice is not consumed")
 
 
@@ -36,7 +39,7 @@ def prologue(ctx, P):
         from ..paths import Walker, Frame, State, func_locals
         from ..typestate import origin
         MUT = ("append", "pop", "remove", "update", "timestamp", "have_event", "event_and_return_nextnode", "insert", "extend", "clear")
-        w = Walker(P, sim, keep=lambda e: e.kind in ("assign", "aug", "del", "return", "leave") or (e.kind == "call" and (e.d["meth"] in MUT or e.d["meth"] == "find_next_active_node")),
+        w = Walker(P, sim, keep=lambda e: e.kind in ("assign", "aug", "del", "return", "leave", "enter") or (e.kind == "call" and (e.d["meth"] in MUT or e.d["meth"] == "find_next_active_node")),
                    inline=rules.new_helper)
         fr = Frame(sim, cls, fn)
         fr._locals = func_locals(fn)
@@ -66,7 +69,7 @@ def prologue(ctx, P):
                 v = e.d.get("value_node")
                 shape = isinstance(v, ast.Attribute) and v.attr == "next_event_date" and isinstance(v.value, ast.Name)
                 if shape:
-                    o = origin(evs, i, v.value.id + e.frame.tag)
+                    o = origin(evs, i, v.value.id + e.frame.tag, e.frame)
                     shape = o is not None and isinstance(o[0], ast.Call) and call_name(o[0]) == "find_next_active_node"
                     # the node handed to the loop is that same node
             if not shape and ("shape", m) not in reported:
@@ -171,7 +174,7 @@ def epilogue(ctx, P):
     # report-only fields must not be read by the event loop
     for field in ("server_utilisation",):
         for ci, fn in P.all_functions():
-            if ci is None or ci.name not in P.subclasses("Node") or fn.name in ("find_server_utilisation",):
+            if ci is None or ci.name not in P.subclasses("Node") or "find_server_utilisation" in rules.effective_names(P, ci, fn):
                 continue
             for x in ast.walk(fn):
                 if isinstance(x, ast.Attribute) and x.attr == field and isinstance(x.ctx, ast.Load):
